@@ -77,7 +77,7 @@ fn main() {
                 scenarios,
                 workers,
                 verif_dir: verif_dir(),
-                write_evidence: !flag(&args, "--no-evidence"),
+                write_evidence: !flag(&args, "--no-evidence") && std::env::var("VERIF_NO_EVIDENCE").is_err(),
                 dump_hashes: false,
             };
             driver::check(&a)
